@@ -89,9 +89,10 @@ theorem jsonld_buggy_breaks_frame : ¬ Statement_jsonld_buggy_frame := by
   intro h
   exact absurd (h witness (by decide)) (by decide)
 
-/-- the repaired code on the same dataset: state unchanged, the triple appears in the OUTPUT's default graph -/
+/-- the repaired code on the same dataset: state unchanged, the default graph of the dataset AND of the output
+    stay empty, the blank-node-named graph is written as a named graph -/
 example : (witness.run .serializeJsonld).1.quads = witness.quads ∧
-    (witness.run .serializeJsonld).2 = .blocks [(.dflt, [(4, 10, 23)])] := by decide
+    (witness.run .serializeJsonld).2 = .blocks [(.dflt, []), (.bnode 3, [(4, 10, 23)])] := by decide
 
 /-! ### the excluded case: a FOREIGN graph object handed to a read call is copied into the store -/
 
@@ -125,8 +126,22 @@ example : ¬ SetEq ((⟨[((1, 10, 2), .iri 7)], [], false, true, .dflt⟩ : Stat
     (⟨[((1, 10, 2), .iri 7)], [], false, true, .dflt⟩ : State).graphNames := by
   intro h
   exact absurd ((h (.iri 7)).mp (by decide)) (by decide)
+/-- documents a FROM clause can load in the examples: IRI 50 holds two triples, nothing else loads -/
+def sampleDocs : GName → Option (List Triple)
+  | .iri 50 => some [(2, 10, 3), (1, 11, 24)]
+  | _ => none
+
 /-- FROM / FROM NAMED: the answer is computed from scratch copies, the dataset is returned untouched -/
-example : (sample.run (.query ⟨[.iri 1], [.bnode 3], true, fun v => [[v.dflt.length, v.named.length]]⟩))
-    = (sample, .rows [[1, 1]]) := by decide
+example : (sample.run (.query ⟨[.dflt (.iri 1), .named (.bnode 3)], true, true, sampleDocs,
+      fun v => [[v.dflt.length, v.named.length]]⟩)) = (sample, .rows [[1, 1]]) := by decide
+/-- one known non-empty FROM graph plus a LOADABLE document (the shape of seeded change C13-4): the document's
+    triples join the scratch default graph (1 + 2 triples are visible to the query), the dataset is untouched;
+    with SPARQL_LOAD_GRAPHS off nothing is loaded; an IRI that cannot be loaded raises — state untouched -/
+example : (sample.run (.query ⟨[.dflt (.iri 1), .dflt (.iri 50)], false, true, sampleDocs,
+      fun v => [[v.dflt.length]]⟩)) = (sample, .rows [[3]]) := by decide
+example : (sample.run (.query ⟨[.dflt (.iri 1), .dflt (.iri 50)], false, false, sampleDocs,
+      fun v => [[v.dflt.length]]⟩)) = (sample, .rows [[1]]) := by decide
+example : (sample.run (.query ⟨[.dflt (.iri 1), .named (.iri 51)], false, true, sampleDocs,
+      fun v => [[v.dflt.length]]⟩)) = (sample, .err) := by decide
 
 end RV.C13
